@@ -277,6 +277,10 @@ class PathCtx:
             self.assume(cond)
         return res.status == "proved"
 
+    def undecided(self, label, where="", reason=""):
+        """an obligation the verifier cannot decide by construction (never a refutation)"""
+        self.checks.append(CheckResult(label, "unknown", solver="frame", where=where, reason=reason, path=list(self.trace)))
+
     def _small_model(self, s):
         """prefer counterexamples with small byte-string lengths so that replays are cheap"""
         model = s.model()
